@@ -508,6 +508,9 @@ func (vc *VC) canInline(fi *FuncInfo) bool {
 	if vc.inlineDepth >= 6 {
 		return false
 	}
+	if !strings.HasPrefix(fi.Pkg.PkgPath, modulePath) {
+		return false // library code is never inlined: it is modelled, assumed pure, or havocs
+	}
 	for _, fr := range vc.frames {
 		if fr.fn == fi {
 			return false // recursion
